@@ -5,6 +5,8 @@
 //   command:  A <flags> <nbytes>\n<nbytes of source>
 //     flags bit 0: scrub - after pass 1 every written-marker (debug_line) is reset to "unwritten"; data bytes stay
 //     flags bit 1: -optimize
+//     flags bit 2: also write the image with file_write() in the types hex, wdc, uf2, bin (elf/srec only with a CPU directive) and report
+//                  a hash of each file (S-record header masked)
 //   result line:  B <n>            (before touching repository code)
 //                 R <n> <status> <image runs: addr:hex,...> | <symbols name=addr/scope,...>
 #include <stdio.h>
@@ -16,8 +18,34 @@
 #include "core/AsmContext.h"
 #include "core/tokens.h"
 #include "core/Symbols.h"
+#include "fileio/file.h"
 
 static FILE *res;
+static std::string tmpname;
+static int g_flags;
+
+static unsigned long long file_hash(const char *name, bool srec)
+{
+  FILE *in = fopen(name, "rb");
+  if (in == NULL) { return 0; }
+  unsigned long long h = 1469598103934665603ULL;
+  char line[1024];
+  if (srec)
+  {
+    while (fgets(line, sizeof(line), in) != NULL)
+    {
+      if (line[0] == 'S' && line[1] == '0') { continue; }
+      for (char *c = line; *c; c++) { h ^= (unsigned char)*c; h *= 1099511628211ULL; }
+    }
+  }
+    else
+  {
+    int ch;
+    while ((ch = getc(in)) != EOF) { h ^= (unsigned char)ch; h *= 1099511628211ULL; }
+  }
+  fclose(in);
+  return h;
+}
 
 static void dump(AsmContext &ctx, int n, int status)
 {
@@ -51,12 +79,29 @@ static void dump(AsmContext &ctx, int n, int status)
   {
     fprintf(res, "%s=%x/%d,", iter.name, iter.address, (int)iter.scope);
   }
-  fprintf(res, " | low=%x high=%x\n", ctx.memory.low_address, ctx.memory.high_address);
+  fprintf(res, " | low=%x high=%x", ctx.memory.low_address, ctx.memory.high_address);
+  if ((g_flags & 4) != 0 && status == 0 && ctx.memory.low_address <= ctx.memory.high_address &&
+      ctx.memory.high_address - ctx.memory.low_address < (1 << 20))
+  {
+    static const int types[] = { FILE_TYPE_HEX, FILE_TYPE_WDC, FILE_TYPE_UF2, FILE_TYPE_BIN, FILE_TYPE_SREC, FILE_TYPE_ELF };
+    static const char *names[] = { "hex", "wdc", "uf2", "bin", "srec", "elf" };
+    for (int t = 0; t < 6; t++)
+    {
+      if (t >= 4 && ctx.cpu_list_index < 0) { continue; }     // srec/elf index cpu_list[] with the CPU directive's index
+      if (file_write(tmpname.c_str(), &ctx, types[t]) == 0)
+      {
+        fprintf(res, " %s=%016llx", names[t], file_hash(tmpname.c_str(), types[t] == FILE_TYPE_SREC));
+      }
+    }
+    unlink(tmpname.c_str());
+  }
+  fprintf(res, "\n");
   fflush(res);
 }
 
 static int assemble(const char *code, int flags, int n)
 {
+  g_flags = flags;
   AsmContext ctx;
   ctx.quiet_output = 1;
   if (flags & 2) { ctx.optimize = 1; }
@@ -100,6 +145,7 @@ int main(int argc, char *argv[])
   if (argc < 2) { return 2; }
   res = fopen(argv[1], "w");
   if (res == NULL) { return 2; }
+  tmpname = std::string(argv[1]) + ".out";
   // library diagnostics go to stdout; keep them out of the way
   freopen("/dev/null", "w", stdout);
 
